@@ -366,7 +366,10 @@ func (ps *prodScen) runAsync(actors []int, byActor map[int][]*cf.Op, closeThink 
 			defer wg.Done()
 			for i, op := range ops {
 				if op.ThinkUs > 0 {
-					time.Sleep(time.Duration(op.ThinkUs) * time.Microsecond)
+					ps.r.nap(time.Duration(op.ThinkUs) * time.Microsecond)
+				}
+				if ps.r.closing() {
+					return // the application stops submitting before it shuts the producer down
 				}
 				m, mi := ps.newMessage(op, i)
 				mi.submitUs = k.nowUs()
@@ -380,7 +383,7 @@ func (ps *prodScen) runAsync(actors []int, byActor map[int][]*cf.Op, closeThink 
 	}
 	wg.Wait()
 	if closeThink > 0 {
-		time.Sleep(time.Duration(closeThink) * time.Microsecond)
+		ps.r.nap(time.Duration(closeThink) * time.Microsecond)
 	}
 	ps.closeRequested = true
 	ps.closeUs = k.nowUs()
@@ -422,7 +425,10 @@ func (ps *prodScen) runSync(actors []int, byActor map[int][]*cf.Op, closeThink i
 			for i := 0; i < len(ops); {
 				op := ops[i]
 				if op.ThinkUs > 0 {
-					time.Sleep(time.Duration(op.ThinkUs) * time.Microsecond)
+					ps.r.nap(time.Duration(op.ThinkUs) * time.Microsecond)
+				}
+				if ps.r.closing() {
+					return
 				}
 				n := op.N // batch size for SendMessages (0/1 = SendMessage)
 				if n <= 1 {
@@ -478,7 +484,7 @@ func (ps *prodScen) runSync(actors []int, byActor map[int][]*cf.Op, closeThink i
 	}
 	wg.Wait()
 	if closeThink > 0 {
-		time.Sleep(time.Duration(closeThink) * time.Microsecond)
+		ps.r.nap(time.Duration(closeThink) * time.Microsecond)
 	}
 	ps.closeRequested = true
 	k.logf("Close()")
